@@ -376,6 +376,9 @@ pub fn corpus(thorough: bool) -> Vec<Tree> {
 /// programs above the size thresholds of the configuration (100 points, 25 points) that still terminate quickly
 pub fn corpus_big() -> Vec<Tree> {
     let mut v = vec![];
+    // programs that take wall-clock time inside the default time budget (EXEC.CMD waits one second): 1 s and 4 s of 5 s
+    v.push(Tree::L(vec![Tree::I(7), Tree::name("A"), Tree::I(0), Tree::ins("EXEC.CMD"), Tree::I(8)]));
+    v.push(Tree::L((0..4).flat_map(|k| vec![Tree::name("A"), Tree::I(0), Tree::ins("EXEC.CMD"), Tree::I(k)]).collect()));
     for n in [26usize, 99, 100, 101, 120, 300] {
         let mut items: Vec<Tree> = (0..n).map(|k| Tree::I(k as i32)).collect();
         items.push(Tree::ins("INTEGER.+"));
